@@ -198,11 +198,12 @@ macro_rules! parse_total {
             kani::assume(n <= $nb);
             if $t < 5 {
                 buf[0] = $t;
-            } else {
-                kani::assume(buf[0] >= 5);
             }
             let mut r = octets::Octets::with_slice(&buf[..n]);
             let p = Packet::from_bytes(&mut r);
+            if n > 0 && buf[0] >= 5 {
+                assert!(p.is_err(), "unknown packet type accepted");
+            }
             match &p {
                 Ok(Packet::SmallReliable { sequence, messages, .. }) => {
                     assert!(*sequence < IDMAX && messages.len() <= $nb);
@@ -244,27 +245,8 @@ macro_rules! parse_total {
         }
     };
 }
-parse_total!(parse_total_t0, 0, 8);
-parse_total!(parse_total_t1, 1, 8);
-parse_total!(parse_total_t2, 2, 8);
-parse_total!(parse_total_t3, 3, 8);
-parse_total!(parse_total_t4, 4, 8);
-parse_total!(parse_total_t0_12, 0, 12);
-parse_total!(parse_total_t2_12, 2, 12);
-parse_total!(parse_total_t4_12, 4, 12);
-
-/// any other first byte is rejected
-#[kani::proof]
-#[kani::unwind(14)]
-fn parse_total_other() {
-    let buf: [u8; 8] = kani::any();
-    let n: usize = kani::any();
-    kani::assume(n <= 8 && n > 0 && buf[0] >= 5);
-    let mut r = octets::Octets::with_slice(&buf[..n]);
-    let p = Packet::from_bytes(&mut r);
-    assert!(p.is_err(), "unknown packet type accepted");
-    std::mem::forget(p);
-}
+parse_total!(parse_total_8, 255, 8);
+parse_total!(parse_total_12, 255, 12);
 
 /// reverse round trip (C16): a byte string that decodes re-encodes to bytes that decode to the same value
 macro_rules! rt_rev {
